@@ -142,10 +142,13 @@ Fixpoint or_pkt (m : msg) (p : pkt) {struct p} : option msg :=
 Definition import_pkts (ps : list pkt) : option msg := fold_opt or_pkt ps (Some empty_msg).
 
 (* ------------------------------------------------------------------ Python slices with any integer bound *)
+(* a bound beyond the end is the end (Python clamps); clamping BEFORE the conversion keeps the extracted unary nat small
+   when a damaged header announces gigabytes *)
+Definition clamp (k : Z) (l : bytes) : nat := Z.to_nat (Z.min k (Z.of_nat (length l))).
 Definition py_take (k : Z) (l : bytes) : bytes :=
-  if k <? 0 then firstn (length l - Z.to_nat (- k)) l else firstn (Z.to_nat k) l.
+  if k <? 0 then firstn (length l - Z.to_nat (- k)) l else firstn (clamp k l) l.
 Definition py_drop (k : Z) (l : bytes) : bytes :=
-  if k <? 0 then skipn (length l - Z.to_nat (- k)) l else skipn (Z.to_nat k) l.
+  if k <? 0 then skipn (length l - Z.to_nat (- k)) l else skipn (clamp k l) l.
 
 (* ------------------------------------------------------------------ one-pass signature body (version 3) *)
 (* SignatureType / PubKeyAlgorithm members (pinned by the harness): constructing the enum from another value raises *)
